@@ -1012,8 +1012,12 @@ class VerbatimEnvironment(NoCharSubEnvironment):
         # for an end without groupings (i.e. \endverbatim)
         endpattern2 = list(r'%send%s' % (escape, name))
 
+        # \endverbatim is plain text inside \begin{verbatim}...\end{verbatim}
+        if self.macroMode != Environment.MODE_NONE:
+            endpattern2 = None
+
         endlength = len(endpattern)
-        endlength2 = len(endpattern2)
+        endlength2 = len(endpattern2 or '')
         # Iterate through tokens until the endpattern is found
         for tok in tex:
             tokens.append(tok)
@@ -1030,7 +1034,7 @@ class VerbatimEnvironment(NoCharSubEnvironment):
                         res = [end]
                     tex.pushTokens(res)
                     break
-            if len(tokens) >= endlength2:
+            if endpattern2 is not None and len(tokens) >= endlength2:
                 if tokens[-endlength2:] == endpattern2:
                     tokens = tokens[:-endlength2]
                     self.ownerDocument.context.pop(self)
